@@ -249,7 +249,8 @@ fn cmd_run(args: &[String]) -> i32 {
             (next.clone(), stop.clone(), total_stats.clone(), found.clone(), other_props.clone(), samples.clone(), determinism.clone());
         let params = params.clone();
         let property = property.clone();
-        handles.push(std::thread::spawn(move || {
+        // (a big stack: the oracle formats documents nested more than a thousand levels deep)
+        handles.push(std::thread::Builder::new().stack_size(512 << 20).spawn(move || {
             let env = base_env(w);
             let env2 = base_env(w + 1000);
             let mut oracle = Oracle::new();
@@ -319,7 +320,7 @@ fn cmd_run(args: &[String]) -> i32 {
             total_stats.lock().unwrap().merge(stats);
             let _ = std::fs::remove_dir_all(&env.base);
             let _ = std::fs::remove_dir_all(&env2.base);
-        }));
+        }).expect("spawn worker"));
     }
     for h in handles {
         let _ = h.join();
@@ -604,7 +605,7 @@ fn cmd_selftest(args: &[String]) -> i32 {
         let mut hs = Vec::new();
         for w in 0..workers {
             let (next, out, params) = (next.clone(), out.clone(), params.clone());
-            hs.push(std::thread::spawn(move || {
+            hs.push(std::thread::Builder::new().stack_size(512 << 20).spawn(move || {
                 let env = base_env(dir_off + w);
                 let mut oracle = Oracle::new();
                 let mut st = Stats::default();
@@ -619,7 +620,7 @@ fn cmd_selftest(args: &[String]) -> i32 {
                     out.lock().unwrap().insert(i, (r.log_digest() ^ vsim::rng::fnv(serde_json::to_string(&r.case).unwrap().as_bytes()), viol));
                 }
                 let _ = std::fs::remove_dir_all(&env.base);
-            }));
+            }).expect("spawn"));
         }
         for h in hs {
             let _ = h.join();
@@ -689,6 +690,12 @@ fn cmd_one(args: &[String]) -> i32 {
 }
 
 fn main() {
+    // everything runs on a thread with a big stack: the oracle formats very deeply nested documents
+    let h = std::thread::Builder::new().stack_size(512 << 20).spawn(real_main).expect("spawn main");
+    let _ = h.join();
+}
+
+fn real_main() {
     let args: Vec<String> = std::env::args().skip(1).collect();
     let code = match args.first().map(|s| s.as_str()) {
         Some("run") => cmd_run(&args[1..]),
